@@ -1295,7 +1295,7 @@ impl Hist {
                     };
                     let (fa, fb) = (fee(r), fee(r));
                     let thr_mode = r.pick(&[0u8, 0, 1, 1, 2]);
-                    return format!("H xswap {} {} {} {} {} {} {} {} {}", ver, amt, thr_mode, limit, b(ein), b(dir), fa, fb, b(r.chance(1, 10)));
+                    return format!("H xswap {} {} {} {} {} {} {} {} {} {}", ver, amt, thr_mode, limit, b(ein), b(dir), fa, fb, b(r.chance(1, 10)), r.pick(&[0u8, 0, 1, 2]));
                 }
                 if r.chance(1, 2) {
                     // C10: the same swap through the account-packaging layer, with a random packaging
